@@ -31,6 +31,12 @@ pub trait Model: Sync {
     fn canon(&self, sys: &Self::Sys) -> Vec<u8>;
     /// State invariant + destructive probes; consumes the objects. Returns an outcome class.
     fn probe(&self, sys: Self::Sys, hist: &[Self::Ev]) -> Result<u64, Fail>;
+    /// True if `probe` looks at nothing but what `canon` describes (no history-dependent oracle): the search then probes each
+    /// canonical state once instead of once per transition that reaches it. Rests on the same premise as the deduplication
+    /// itself (states with equal canonical form have equal futures), which `audit_dedup` tests.
+    fn probe_once_per_state(&self) -> bool {
+        false
+    }
 }
 
 pub struct ExploreOpts {
@@ -82,6 +88,7 @@ pub fn explore<M: Model>(ctx: &Ctx, family: &str, model: &M, opts: ExploreOpts) 
     let mut per_depth: Vec<HashSet<u64>> = vec![[init_fp].into_iter().collect()];
     let transitions = AtomicU64::new(0);
     let executions = AtomicU64::new(0);
+    let probes_skipped = AtomicU64::new(0);
     let classes: Mutex<HashSet<u64>> = Mutex::new(HashSet::new());
     let mut states: u64 = 1;
     let mut repr: HashMap<u64, String> = HashMap::new();
@@ -106,6 +113,9 @@ pub fn explore<M: Model>(ctx: &Ctx, family: &str, model: &M, opts: ExploreOpts) 
         let next_idx = AtomicU64::new(0);
         let out: Mutex<Vec<(Vec<M::Ev>, u64)>> = Mutex::new(vec![]);
         let capped = AtomicBool::new(false);
+        let level_seen: Mutex<HashSet<u64>> = Mutex::new(HashSet::new());
+        let once = opts.dedup && model.probe_once_per_state();
+        let seen_ref = &seen;
         let nthreads = util::workers().min(frontier.len()).max(1);
         util::run_workers(nthreads, |_| {
             let mut local_out: Vec<(Vec<M::Ev>, u64)> = vec![];
@@ -153,12 +163,18 @@ pub fn explore<M: Model>(ctx: &Ctx, family: &str, model: &M, opts: ExploreOpts) 
                         };
                         model.apply(&mut sys, &ev).map_err(|f| f.with("step", hist.len() as u64))?;
                         let fp2 = util::fnv64(&model.canon(&sys));
+                        if once && (seen_ref.contains_key(&fp2) || !level_seen.lock().unwrap().insert(fp2)) {
+                            probes_skipped.fetch_add(1, Ordering::Relaxed);
+                            return Ok((fp2, None));
+                        }
                         let class = model.probe(sys, &h2)?;
-                        Ok((fp2, class))
+                        Ok((fp2, Some(class)))
                     });
                     match res {
                         Ok(Ok((fp2, class))) => {
-                            local_classes.insert(class);
+                            if let Some(class) = class {
+                                local_classes.insert(class);
+                            }
                             local_out.push((h2, fp2));
                         }
                         Ok(Err(fail)) => {
@@ -235,6 +251,9 @@ pub fn explore<M: Model>(ctx: &Ctx, family: &str, model: &M, opts: ExploreOpts) 
         ..Default::default()
     };
     stats.extra.insert("frontier_left".into(), json!(frontier.len()));
+    if model.probe_once_per_state() && opts.dedup {
+        stats.extra.insert("probes_skipped_state_already_probed".into(), json!(probes_skipped.load(Ordering::SeqCst)));
+    }
     ctx.add_family(stats.clone());
     ExploreResult { stats, per_depth, repr }
 }
